@@ -7,7 +7,7 @@ D = 'nmea2000/decoder.py'; E = 'nmea2000/encoder.py'; I = 'nmea2000/ioclient.py'
 MUTS_IO = {
  "no_connect_lock": ("C13,C14", I, [("        if self.lock.locked():\n            self.logger.info(\"connect is already running\")\n            return\n", ""), ("        async with self.lock:\n            if self._state == State.CONNECTED:", "        if True:\n            if self._state == State.CONNECTED:")]),
  "zero_backoff": ("C13", I, [("wait=wait_exponential(multiplier=0.5, max=10)", "wait=wait_exponential(multiplier=0, max=10)")]),
- "no_cap": ("C13", I, [("wait=wait_exponential(multiplier=0.5, max=10)", "wait=wait_exponential(multiplier=0.5, max=1000)")]),
+ "no_cap": ("C13", I, [("wait=wait_exponential(multiplier=0.5, max=10)", "wait=wait_exponential(multiplier=0.5, max=10**9)")]),
  "close_no_cancel_queue": ("C14", I, [("        if self._process_queue_task and not self._process_queue_task.done():\n            self._process_queue_task.cancel()", "        if False:\n            pass")]),
  "dup_status": ("C14", I, [("        if self._state == new_state:\n            return  # State hasn't changed, no need to do anything\n", "")]),
  "status_exc_propagates": ("C14,C13", I, [("            except Exception as e:\n                self.logger.error(f\"Error in status callback: {e}\", exc_info=True)", "            except ZeroDivisionError as e:\n                pass")]),
